@@ -648,6 +648,30 @@ func genConc(t *rapid.T) Case {
 
 func checkConc(t *testing.T, c Case) (v harness.Verdict) {
 	r := newRig(t, c)
+	// Writes are slow, and a few of them fail (one-shot faults, decided by the call counter): submissions
+	// of the same chain overlap, some of them fail with 5xx - but whatever was ANSWERED 200 must be
+	// readable once the dust has settled, because the faults are over by then.
+	r.store.AddLatency = 2 * time.Millisecond
+	failAt := map[int]bool{}
+	for i, s := range c.Steps {
+		if s.Kind == "submit" && (s.Spec.ID+uint32(i))%5 == 0 {
+			failAt[len(failAt)*3] = true // the 0th, 3rd, 6th ... Add call fails
+		}
+	}
+	r.store.FailAdd = func(n int) error {
+		if failAt[n] {
+			return errors.New("injected storage failure (Add)")
+		}
+		return nil
+	}
+	accepted := map[string]bool{} // leaf values of submissions answered 200
+	// certificates are built beforehand so that the submissions of all workers really overlap
+	prebuilt := map[int]*world.Built{}
+	for i, s := range c.Steps {
+		if s.Kind == "submit" {
+			prebuilt[i] = world.Build(*s.Spec)
+		}
+	}
 	var wg sync.WaitGroup
 	var vmu sync.Mutex
 	stop := make(chan struct{})
@@ -676,7 +700,7 @@ func checkConc(t *testing.T, c Case) (v harness.Verdict) {
 				}
 				switch s.Kind {
 				case "submit":
-					b := world.Build(*s.Spec)
+					b := prebuilt[i]
 					path := "/ct/v1/add-chain"
 					if s.Spec.Precert {
 						path = "/ct/v1/add-pre-chain"
@@ -689,10 +713,18 @@ func checkConc(t *testing.T, c Case) (v harness.Verdict) {
 						r.want[string(lv)] = append(r.want[string(lv)], b.ExtraData())
 						r.mu.Unlock()
 					}
+					var lvKey string
+					if lv, err := rfc6962.EncodeLeaf(rfc6962.Leaf{Timestamp: uint64(r.clock.Now().UnixMilli()), Entry: b.Entry()}); err == nil {
+						lvKey = string(lv)
+					}
 					rsp := r.indirect.Post(path, addBody(b.Submit))
 					vmu.Lock()
-					if rsp.Status != 200 {
+					if rsp.Status == 200 {
+						accepted[lvKey] = true
+					} else if rsp.Status < 500 {
 						v.Failf("indirect-submission-refused", "%s refused: %d %q", path, rsp.Status, trunc(rsp.Body))
+					} else {
+						v.Class("add-fault-surfaced")
 					}
 					vmu.Unlock()
 				case "entries", "eap":
@@ -719,8 +751,18 @@ func checkConc(t *testing.T, c Case) (v harness.Verdict) {
 	close(stop)
 	<-seqDone
 	r.beI.Sequence(-1, 999999)
-	for start := 0; start < r.beI.Size(); start += 4 {
-		r.judgeAlone(&v, r.indirect.Get("/ct/v1/get-entries", fmt.Sprintf("start=%d&end=%d", start, start+3)), start)
+	r.sc.mu.Lock()
+	r.sc.forgetEvery = 1 // the cache has forgotten everything: every chain must come from storage now
+	r.sc.mu.Unlock()
+	for start := 0; start < r.beI.Size(); start++ {
+		rsp := r.indirect.Get("/ct/v1/get-entries", fmt.Sprintf("start=%d&end=%d", start, start))
+		if rsp.Status != 200 && accepted[string(r.beI.Leaf(start).LeafValue)] {
+			v.Failf("accepted-entry-unreadable", "entry %d was accepted with 200 (while other writes of its chain were slow or failing) but cannot be served afterwards: %d %q", start, rsp.Status, trunc(rsp.Body))
+			continue
+		}
+		if rsp.Status == 200 {
+			r.judgeAlone(&v, rsp, start)
+		}
 	}
 	v.NonTrivial = len(r.want) >= 2
 	return v
